@@ -433,6 +433,11 @@ def run(ctx):
         ctx.cov["ProcWaitImpl.taken." + m.group(1)] = int(m.group(3))
     rl = vlib.tlc(SPECDIR, "ProcWaitImpl", live, workers=4, timeout=1500, xmx="4g")
     ctx.add_tlc("ProcWaitImpl_liveness", rl)
+    # model-level witness of finding X02/2: the transcription of the ORIGINAL wait() (Scan = FALSE) does not refine ProcLife
+    ro = vlib.tlc(SPECDIR, "ProcWaitImpl", "ProcWaitImpl_orig.cfg", workers=2, timeout=600)
+    ctx.notes["layer2_model_of_unpatched_wait_violates_refinement"] = bool(ro.violation and "Refines" in ro.violation)
+    if ro.broken:
+        ctx.broken.append("ProcWaitImpl_orig: " + ro.broken[:800])
     if r.ok:
         walks, nedges = vlib.graph_walks(dot, max_len=120, seed=ctx.seed)
         os.remove(dot)
